@@ -103,7 +103,7 @@ theorem sorted_bracket (κ : α → Nat) (S : List α) (hs : S.Pairwise (fun a b
   refine ⟨?_, ?_, ?_, ?_⟩
   · intro r hr
     have hr' : B.head? = some r := by
-      have : S[i]? = B.head? := by
+      have : S[A.length]? = B.head? := by
         conv => lhs; rw [hsplit]
         exact getElem?_append_length A B
       rw [← this]; exact hr
@@ -118,7 +118,7 @@ theorem sorted_bracket (κ : α → Nat) (S : List α) (hs : S.Pairwise (fun a b
       | none => exact absurd (List.getLast?_eq_none_iff.mp h) hne
       | some l => exact ⟨l, rfl⟩
     refine ⟨l, ?_, ?_, ?_, ?_⟩
-    · have : S[i - 1]? = A.getLast? := by
+    · have : S[A.length - 1]? = A.getLast? := by
         conv => lhs; rw [hsplit]
         exact getElem?_append_length_pred A B hne
       rw [this, hl]
